@@ -277,7 +277,7 @@ impl Part for CascadePart {
     fn strategy(&self, _t: Tier) -> BoxedStrategy<C18Case> {
         let know = (0..3u8, -1..2i8, prop_oneof![0..3u16, Just(u16::MAX)], 0..3u8, any::<bool>()).prop_map(|(about, gen_delta, inc, state, broadcast)| Know { about, gen_delta, inc, state, broadcast });
         let node = (
-            (0..3u8, 0..5u8, any::<bool>(), 1..6u8, 1..4u8, any::<u64>()),
+            (0..3u8, 0..RENEW_MODES, any::<bool>(), 1..6u8, 1..4u8, any::<u64>()),
             proptest::collection::vec(know.clone(), 0..5),
             proptest::collection::vec((0..3u8, 0..3u8), 0..3),
             prop_oneof![5 => Just(false), 1 => Just(true)],
